@@ -40,6 +40,7 @@ def describe(c, d, line):
         "touched": "a failed parse modified the target value",
         "roundtrip": "print -> parse does not give the value back",
         "get-inexact": "typed extraction returned a value that is not the stored number",
+        "build": "an object built through operator[] does not hold exactly the distinct member names with their last values / a member is not retrievable",
         "died": "process died",
         "driver": "driver produced an event outside the property's domain (harness defect)",
     }.get(c, c)
@@ -55,6 +56,8 @@ def run(ctx):
         "values holding non-finite numbers or strings that are not valid UTF-8 cannot be represented in JSON and are outside the domain of the round-trip clause",
         "documented nesting bound = json_max_depth = 512 open containers",
         "documents longer than 120 bytes (grammar-generated up to 30 KiB, deep chains) are judged for Sound / Untouched / RoundTrip only, not re-parsed in TLA+",
+        "member names are drawn from the same adversarial family as string values (embedded NUL at every position, names equal up to a NUL / multi-byte character / byte >= 0x80, "
+        "prefixes of each other, empty, > 16 and > 256 bytes); the order of members in the serialised form (byte-wise increasing in the design) is not part of the property: a different order is MODEL-DRIFT",
         "named leniencies of the code (trailing comma, // comments, leading zeros, '1.', '-.5') are legal under the property and not reported",
     ]
     W = int(os.environ.get("VERIF_WORKERS", "16"))      # TLC workers for Leg D
@@ -80,7 +83,7 @@ def run(ctx):
         runs.append(("toks", 5 if q else 6, s, nsh))
     if q:
         runs += [("strings", 2, 2500), ("numbers", 4), ("muts", 30, 0), ("muts", 30, 1), ("nest", 64), ("trees", 120, 0),
-                 ("get",), ("long", 4, 0)]
+                 ("get",), ("long", 4, 0), ("keys", 90, 0), ("keys", 90, 1)]
     else:
         runs += [("strings", 3, 20000), ("numbers", 6)]
         runs += [("muts", 100, s) for s in range(6)]
@@ -88,6 +91,7 @@ def run(ctx):
         runs += [("trees", 1500, s) for s in range(4)]
         runs += [("get",)]
         runs += [("long", 25, s) for s in range(4)]
+        runs += [("keys", 500, s) for s in range(6)]
     traces = []
     for i, spec in enumerate(runs):
         t = os.path.join(ctx.work, "c11-%d.ndjson" % i)
@@ -100,7 +104,7 @@ def run(ctx):
             for n, ln in enumerate(f):
                 if n < 2000:
                     ctx.seen(ln[:120])
-                if spec[0] in ("strings", "trees", "get") and n == 5:
+                if spec[0] in ("strings", "trees", "get", "keys") and n == 5:
                     ctx.sample({"driver": list(spec), "event": ln.strip()[:400]})
     results = fnval.judge_many(ctx, "Json/JsonTrace.tla", "JsonTrace.cfg", traces, threads=6,
                                env={"JAVA_TOOL_OPTIONS": "-Xss512m"}, heap="3g")
@@ -118,6 +122,9 @@ def run(ctx):
         res["flags"] = keep
         fnval.account(ctx, res, sig_of, describe, tag="c11")
     for k, ex in sorted(drift.items()):
-        ctx.drift.append("%s: code and the implementation-shaped model (ImplTokens + machine) disagree on acceptance, e.g. %s" % (k, ex))
+        if k.startswith("drift-member-order"):
+            ctx.drift.append("%s: members are not iterated / printed in strictly increasing byte-wise order of their names (design: std::map<string_key>), e.g. %s" % (k, ex))
+        else:
+            ctx.drift.append("%s: code and the implementation-shaped model (ImplTokens + machine) disagree on acceptance, e.g. %s" % (k, ex))
     ctx.extra["rule"] = ("events = load / operator>> / save / operator<< / get_value calls judged by TLC (documents <= 120 bytes tokenised and reference-parsed in TLA+); "
                          "executions = blocks of 400 calls without a flagged event; distinct = distinct event prefixes among the first 2000 events of each driver run")
